@@ -134,7 +134,7 @@ func buildDKGModel(c *Ctx, b builtinBackend) *dkgModel {
 						continue
 					}
 					w := &waitFn{fn: cs.Parent(), inner: fn, site: cs, waitPos: cl.Pos(), bind: map[*ssa.Parameter]*ssa.MakeClosure{pred: mc}}
-					for _, in3 := range instrsOf(mc.Fn.(*ssa.Function)) {
+					for _, in3 := range instrsDeep(mc.Fn.(*ssa.Function)) {
 						if bo, ok := in3.(*ssa.BinOp); ok {
 							classify(w, Fact{Op: bo.Op, X: bo.X, Y: bo.Y})
 						}
@@ -156,17 +156,114 @@ func buildDKGModel(c *Ctx, b builtinBackend) *dkgModel {
 	return d
 }
 
-// sendSites returns the sendMsg calls with the tag constant they transmit.
-func (d *dkgModel) sendSites() map[ssa.CallInstruction]int64 {
-	out := map[ssa.CallInstruction]int64{}
-	for _, call := range callsOfFuncField(d.fns, d.fSend) {
-		if ec, ok := strip(call.Common().Args[0]).(*ssa.Call); ok && staticCallee(&ec.Call) == d.enc {
-			if k, ok := constInt(ec.Call.Args[0]); ok {
-				out[call] = k
+// sendSite: one place where a backend sends a message of a known tag: the sendMsg call itself or, when
+// the call sits in a small helper that is given the tag (`tps.broadcast(commitPK, payload)`), each call of
+// that helper.
+type sendSite struct {
+	call    ssa.CallInstruction // the sendMsg call
+	at      ssa.CallInstruction // where the tag is fixed: call, or the helper's call site
+	tag     int64
+	payload ssa.Value // second argument of encodeMsg, as seen at `at`
+	bcast   ssa.Value // isBroadcast argument, as seen at `at`
+}
+
+func (s sendSite) bcastConst() (bool, bool) {
+	k, ok := s.bcast.(*ssa.Const)
+	if !ok || k.Value == nil {
+		return false, false
+	}
+	return k.Value.String() == "true", true
+}
+
+// backendSendSites lists the send sites of a backend; undecided holds the sendMsg calls whose tag is
+// fixed neither at the call nor by every caller of the enclosing helper.
+func backendSendSites(fns []*ssa.Function, fSend *types.Var, enc *ssa.Function) (sites []sendSite, undecided []ssa.CallInstruction) {
+	for _, call := range callsOfFuncField(fns, fSend) {
+		args := call.Common().Args
+		if len(args) < 2 {
+			undecided = append(undecided, call)
+			continue
+		}
+		ec, ok := strip(args[0]).(*ssa.Call)
+		if !ok || staticCallee(&ec.Call) != enc || len(ec.Call.Args) != 2 {
+			undecided = append(undecided, call)
+			continue
+		}
+		if k, ok := constInt(ec.Call.Args[0]); ok {
+			sites = append(sites, sendSite{call: call, at: call, tag: k, payload: ec.Call.Args[1], bcast: args[1]})
+			continue
+		}
+		// the tag is a parameter of the enclosing unexported helper: one site per caller
+		h := call.Parent()
+		noParamLook++
+		tp, isP := strip(ec.Call.Args[0]).(*ssa.Parameter)
+		noParamLook--
+		css := staticCallsTo(fns, h)
+		if !isP || tp.Parent() != h || h.Object() == nil || h.Object().Exported() || len(css) == 0 || funcUsedAsValue(fns, h) {
+			undecided = append(undecided, call)
+			continue
+		}
+		at := func(cs ssa.CallInstruction, v ssa.Value) ssa.Value {
+			noParamLook++
+			sv := strip(v)
+			noParamLook--
+			if p, ok := sv.(*ssa.Parameter); ok && p.Parent() == h {
+				if i := paramIndex(p); i >= 0 && i < len(cs.Common().Args) {
+					return cs.Common().Args[i]
+				}
+			}
+			return v
+		}
+		var lifted []sendSite
+		okAll := true
+		for _, cs := range css {
+			k, ok := constInt(at(cs, tp))
+			if !ok {
+				okAll = false
+				break
+			}
+			lifted = append(lifted, sendSite{call: call, at: cs, tag: k, payload: at(cs, ec.Call.Args[1]), bcast: at(cs, args[1])})
+		}
+		if !okAll {
+			undecided = append(undecided, call)
+			continue
+		}
+		sites = append(sites, lifted...)
+	}
+	return
+}
+
+// funcUsedAsValue: f is referenced other than as the callee of a static call (stored, passed, bound).
+func funcUsedAsValue(fns []*ssa.Function, f *ssa.Function) bool {
+	for _, fn := range fns {
+		for _, in := range instrsOf(fn) {
+			for _, op := range in.Operands(nil) {
+				if *op != ssa.Value(f) {
+					continue
+				}
+				if ci, ok := in.(ssa.CallInstruction); ok && ci.Common().Value == ssa.Value(f) {
+					// callee position; the same function may still appear among the arguments
+					isArg := false
+					for _, a := range ci.Common().Args {
+						if a == ssa.Value(f) {
+							isArg = true
+						}
+					}
+					if !isArg {
+						continue
+					}
+				}
+				return true
 			}
 		}
 	}
-	return out
+	return false
+}
+
+// sendSites returns the send sites of the backend with the tag constant they transmit.
+func (d *dkgModel) sendSites() []sendSite {
+	sites, _ := backendSendSites(d.fns, d.fSend, d.enc)
+	return sites
 }
 
 // errorHonoured: the error result `res` of call `cl` in fn is either returned
@@ -281,12 +378,12 @@ func checkC05(c *Ctx) {
 		sends := d.sendSites()
 		var revealSends []ssa.CallInstruction
 		var commitSend ssa.CallInstruction
-		for cs, k := range sends {
-			if k == d.tagReveal {
-				revealSends = append(revealSends, cs)
+		for _, ss := range sends {
+			if ss.tag == d.tagReveal {
+				revealSends = append(revealSends, ss.at)
 			}
-			if k == d.tagCommit {
-				commitSend = cs
+			if ss.tag == d.tagCommit {
+				commitSend = ss.at
 			}
 		}
 		if len(revealSends) == 0 || commitSend == nil {
@@ -337,12 +434,13 @@ func checkC05(c *Ctx) {
 		// ---------------------------------------------------------------- T1
 		cls := m.Func(b.pkg, b.typ, "ClassifyMsg")
 		if tab, ok := classifyTable(cls); ok {
-			for cs, k := range sends {
+			for _, ss := range sends {
+				cs, k := ss.at, ss.tag
 				if k != d.tagCommit && k != d.tagReveal {
 					continue
 				}
-				bc, isK := cs.Common().Args[1].(*ssa.Const)
-				sentB := isK && bc.Value != nil && bc.Value.String() == "true"
+				sentB, isK := ss.bcastConst()
+				sentB = sentB && isK
 				row, has := tab[k]
 				c.Check(has && row.bcast && sentB, T1, FuncName(cs.Parent()), fmt.Sprintf("%s tag %d broadcast on both sides", short, k), m.Pos(cs.Pos()), "sent with isBroadcast=true, classified broadcast",
 					"commit/reveal is not broadcast-class on both sides: honest parties may evaluate different values")
@@ -600,19 +698,35 @@ func (d *dkgModel) ruleCrossCheck(c *Ctx, rule string) {
 		return
 	}
 	c.Analysed(FuncName(asm))
+	// the map whose size decides: result #0 of the assembly, or a field of the collector object it returns
+	var decisionField *types.Var
 	for _, r := range d.successReturns() {
 		ok := hasFact(FactsAt(r), func(f Fact) bool {
 			x, isLen := lenOperand(strip(f.X))
 			if !isLen {
 				return false
 			}
-			e, isE := strip(x).(*ssa.Extract)
-			if !isE || e.Index != 0 {
+			var fld *types.Var
+			sx := strip(x)
+			if ld, isLd := sx.(*ssa.UnOp); isLd && ld.Op == token.MUL {
+				if fa, isFA := ld.X.(*ssa.FieldAddr); isFA {
+					sx, fld = strip(fa.X), fieldOfAddr(fa)
+				}
+			}
+			var cl *ssa.Call
+			if e, isE := sx.(*ssa.Extract); isE && e.Index == 0 {
+				cl, _ = e.Tuple.(*ssa.Call)
+			} else if c1, isC := sx.(*ssa.Call); isC && fld != nil {
+				cl = c1
+			}
+			if cl == nil || staticCallee(&cl.Call) != asm {
 				return false
 			}
-			cl, isC := e.Tuple.(*ssa.Call)
-			if !isC || staticCallee(&cl.Call) != asm {
-				return false
+			if fld != nil {
+				if _, isMap := fld.Type().Underlying().(*types.Map); !isMap {
+					return false
+				}
+				decisionField = fld
 			}
 			k, isK := constInt(f.Y)
 			return isK && ((f.Op == token.LEQ && k == 1) || (f.Op == token.LSS && k == 2) || (f.Op == token.EQL && k == 1))
@@ -645,13 +759,25 @@ func (d *dkgModel) ruleCrossCheck(c *Ctx, rule string) {
 				retMap = strip(retResult(r, 0))
 			}
 		}
-		for _, in2 := range instrsOf(clo) {
+		for _, in2 := range instrsDeep(clo) {
 			mu, ok := in2.(*ssa.MapUpdate)
 			if !ok {
 				continue
 			}
 			// map is the captured returned map; executed unconditionally at the end of the closure; key derives from the aggregate over this subset
 			capt := false
+			if ld, isLd := strip(mu.Map).(*ssa.UnOp); isLd && decisionField != nil {
+				// the collector's map: a field of the object bound to the callback and returned
+				if fa, isFA := ld.X.(*ssa.FieldAddr); isFA && fieldOfAddr(fa) == decisionField {
+					if fv, ok := strip(fa.X).(*ssa.FreeVar); ok {
+						for i, f := range clo.FreeVars {
+							if f == fv && i < len(mc.Bindings) && strip(mc.Bindings[i]) == retMap {
+								capt = true
+							}
+						}
+					}
+				}
+			}
 			if fv, ok := strip(mu.Map).(*ssa.FreeVar); ok {
 				for i, f := range clo.FreeVars {
 					if f == fv && strip(mc.Bindings[i]) == retMap {
@@ -671,6 +797,18 @@ func (d *dkgModel) ruleCrossCheck(c *Ctx, rule string) {
 			s := d.sl.Slice(mu.Key)
 			fromSubset := len(clo.Params) == 1 && s[clo.Params[0]]
 			uncond := len(GuardsOf(mu)) == 0 || onlyLoopGuards(mu)
+			if mu.Parent() != clo {
+				// in a step of the callback: the step is called unconditionally too
+				for f := mu.Parent(); f != nil && f != clo; {
+					hc := helperCall(f)
+					if hc == nil {
+						uncond = false
+						break
+					}
+					uncond = uncond && (len(GuardsOf(hc)) == 0 || onlyLoopGuards(hc))
+					f = hc.Parent()
+				}
+			}
 			if capt && fromSubset && uncond {
 				okRecord = true
 			} else {
@@ -1002,24 +1140,19 @@ func sha256Inputs(v ssa.Value, depth int) []ssa.Value {
 func (d *dkgModel) ruleCommitmentSent(c *Ctx, rule string) {
 	sends := d.sendSites()
 	var reveals []ssa.Value
-	for call, tag := range sends {
-		if tag == d.tagReveal {
-			if ec, ok := strip(call.Common().Args[0]).(*ssa.Call); ok && len(ec.Call.Args) == 2 {
-				reveals = append(reveals, ec.Call.Args[1])
-			}
+	for _, ss := range sends {
+		if ss.tag == d.tagReveal {
+			reveals = append(reveals, ss.payload)
 		}
 	}
 	n := 0
-	for call, tag := range sends {
-		if tag != d.tagCommit {
-			continue
-		}
-		ec, ok := strip(call.Common().Args[0]).(*ssa.Call)
-		if !ok || len(ec.Call.Args) != 2 {
+	for _, ss := range sends {
+		call := ss.at
+		if ss.tag != d.tagCommit {
 			continue
 		}
 		n++
-		ins := sha256Inputs(ec.Call.Args[1], 0)
+		ins := sha256Inputs(ss.payload, 0)
 		okKey := false
 		for _, iv := range ins {
 			for _, rv := range reveals {
